@@ -22,6 +22,7 @@ import (
 
 	"verif/sim"
 	"verif/simrt"
+	"verif/simrt/pkgstate"
 	"verif/worlds"
 	_ "verif/worlds/all"
 )
@@ -77,7 +78,10 @@ func main() {
 	flag.Parse()
 
 	log.SetOutput(io.Discard) // the library logs decode warnings to the global logger
-	sim.ResetHooks = append(sim.ResetHooks, lorawan.VerifResetRegistry)
+	// between runs every package-level variable of the library is rewound in
+	// place to its state at process start (verif/simrt/pkgstate); the
+	// generated registry hook stays as a second line for the registry itself
+	sim.ResetHooks = append(sim.ResetHooks, pkgstate.Restore, lorawan.VerifResetRegistry)
 	// pools start empty in every run and the collector never runs inside a
 	// run (see check.sh: sync.Pool seam)
 	debug.SetGCPercent(-1)
